@@ -579,7 +579,7 @@ where
         let mut update_proofs = Vec::<UpdateProof>::new();
         for user_state in &user_data {
             let proof = self
-                .create_single_update_proof(akd_label, user_state)
+                .create_single_update_proof(&current_azks, akd_label, user_state)
                 .await?;
             update_proofs.push(proof);
         }
@@ -793,6 +793,7 @@ where
     #[cfg_attr(feature = "tracing_instrument", tracing::instrument(skip_all))]
     async fn create_single_update_proof(
         &self,
+        current_azks: &Azks,
         akd_label: &AkdLabel,
         user_state: &ValueState,
     ) -> Result<UpdateProof, AkdError> {
@@ -805,7 +806,9 @@ where
             .get_node_label::<TC>(akd_label, VersionFreshness::Fresh, version)
             .await?;
 
-        let current_azks = self.retrieve_azks().await?;
+        // Note: all the membership proofs of a history proof must be generated against the same
+        // epoch of the tree (the one captured at the beginning of the key history operation), hence
+        // the epoch record is passed in rather than retrieved again for each individual update proof
         let existence_vrf = self
             .vrf
             .get_label_proof::<TC>(akd_label, VersionFreshness::Fresh, version)
